@@ -15,6 +15,7 @@ import (
 	"os"
 	"runtime"
 	"sync"
+	"time"
 )
 
 // ---------------------------------------------------------------- rng
@@ -698,10 +699,13 @@ func Run(cfg Config, fns []func()) Result {
 	first := s.anyRunnable()
 	s.cur = first
 	s.hash = Mix(uint64(first.id))
+	stopMon := make(chan struct{})
+	go s.stallMonitor(stopMon)
 	raceDisable()
 	s.resume(first)
 	<-s.main
 	raceEnable()
+	close(stopMon)
 	active = false
 	if s.dead == "" && s.noprog == "" {
 		s.join.Wait() // real acquire edge: everything the tasks did happens-before what follows
@@ -713,6 +717,44 @@ func Run(cfg Config, fns []func()) Result {
 	}
 	return r
 }
+
+// OnStall, if set, is called (on the monitor's goroutine) when no task has passed a step for StallSeconds of wall
+// time although the run is not over: the task holding the run token is blocked in something the simulator does not
+// see (a channel operation, a real lock, a system call) - with every other task parked, nothing will ever wake it.
+// The argument is the dump of all goroutine stacks. The hook is expected not to return.
+var (
+	OnStall      func(stacks string)
+	StallSeconds = 25
+)
+
+//go:norace
+func (s *sched) stallMonitor(stop chan struct{}) {
+	last, same := int64(-1), 0
+	for {
+		select {
+		case <-stop:
+			return
+		case <-time.After(time.Second):
+		}
+		if s.step != last || inHarness() {
+			last, same = s.step, 0
+			continue
+		}
+		same++
+		if same >= StallSeconds && OnStall != nil {
+			buf := make([]byte, 1<<20)
+			n := runtime.Stack(buf, true)
+			OnStall(string(buf[:n]))
+			return
+		}
+	}
+}
+
+// inHarness: the current task is outside Visible (harness code, which may legitimately compute for long without
+// passing a yield point).
+//
+//go:norace
+func inHarness() bool { return visibleDepth == 0 }
 
 //go:norace
 func sortInt64(a []int64) {
@@ -740,6 +782,12 @@ func PoolGetDecision(n int) int {
 		poolSt.GetNew++
 		return -1
 	}
+	if poolMode == "lifo" {
+		// what a single goroutine sees of the real sync.Pool between collections: always the object put back last
+		poolSt.GetRecent++
+		probe[ProbePoolDirty]++
+		return n - 1
+	}
 	switch r := poolRng.Intn(8); {
 	case r == 0:
 		poolSt.GetNew++
@@ -764,6 +812,10 @@ func PoolGetDecision(n int) int {
 //
 //go:norace
 func PoolPutDecision() bool {
+	if poolMode == "lifo" {
+		poolSt.PutKeep++
+		return true
+	}
 	if poolRng.Intn(8) == 0 {
 		poolSt.PutDrop++
 		return false
@@ -797,7 +849,18 @@ func Visible(f func()) {
 		f()
 		return
 	}
+	visibleDepth++
 	raceEnable()
-	defer raceDisable()
+	defer visibleExit()
 	f()
 }
+
+//go:norace
+func visibleExit() {
+	raceDisable()
+	visibleDepth--
+}
+
+// visibleDepth counts the Visible sections in progress (tasks run one at a time, a task parked inside Visible keeps
+// its count: > 0 means some task is inside the code under test).
+var visibleDepth int
